@@ -364,7 +364,9 @@ func GetHTTPRequest(ctx *core.Context, r *http.Request) (map[string]interface{},
 				return nil, err
 			}
 
-			if js[0] == '{' {
+			if len(js) == 0 {
+				// No body, so nothing (more) to parse.
+			} else if js[0] == '{' {
 				// If the body looks like JSON, treat it as JSON.
 				if err = json.Unmarshal(js, &m); err != nil {
 					return nil, err
@@ -419,7 +421,14 @@ func (s *HTTPService) ServeHTTP(w http.ResponseWriter, r *http.Request) {
 		return
 	}
 
-	switch DWIMURI(ctx, m["uri"].(string)) { // Sorry.
+	uri, ok := m["uri"].(string)
+	if !ok {
+		// The body can overwrite the uri we put there.
+		protest(ctx, fmt.Errorf("need a string uri, not a %T", m["uri"]), w)
+		return
+	}
+
+	switch DWIMURI(ctx, uri) {
 	case "/api/sys/admin/connstates":
 		counts := s.connStates.Get()
 		js, err := json.Marshal(&counts)
